@@ -16,7 +16,11 @@ must stop, with a runtime error, exactly at the first bad evaluation.
 sequences) spliced after complete rules (end of text, after the final newline, between two rules, before the first rule, a
 token boundary inside a rule), followed by nothing, more rules or text that is not a program: a syntax error, no output.
 (e) a container compared with ITSELF (the same variable, parameter, loop variable, member path, element, $, an alias) by each of
-== != < <= > >= is the same fault as comparing two distinct containers."""
+== != < <= > >= is the same fault as comparing two distinct containers.
+(g) literals and argument lists whose elements REPEAT: object literals that write the same key two or three times (as identifier, as
+string, mixed, next to other keys, in a nested literal), array literals / argument lists / print lists that repeat the same element
+text: every element is evaluated, in order; a fault in any of them (whether its key is written again later or was written before)
+stops the run there with the output of the elements in front of it."""
 import re
 from framework import Check, Case
 from jqlib import run_case, simple_run, RunRes
@@ -416,6 +420,78 @@ def byte_splices(rng, quick):
     return out
 
 
+
+# ---- (g) repeated elements.  Key layouts of an object literal: each entry is the key as written; several spell the same key.
+DUP_KEYS = [
+    ['n', '"n"'], ['"n"', 'n'], ['n', 'n'], ['"n"', '"n"'], ['n', 'n', 'n'], ['n', '"n"', 'n'], ['"n"', 'n', '"n"'],
+    ['a', 'n', '"n"'], ['n', 'a', 'n'], ['n', '"n"', 'a'], ['a', 'n', 'b', '"n"', 'c'], ['n', 'm', '"m"', '"n"'], ['n', 'm', 'n', 'm'],
+    ["'n'", 'n'], ['"a b"', '"a b"'], ['"µ"', 'µ', '"µ"'], ['length', '"length"'], ['n', 'N', 'n'], ['"1"', '"1"', '"01"'],
+    ['a', 'b', 'c'],
+]
+DUP_FAULTS = ["(1 / 0)", "(7 % 0)", "(nofn(1))", "((5)(1))", "(\"a\" ~ \"(\")", "([1] < 2)", "$nope", "[1, 2][-9]", "(1 ~ 5)", "({a: 1}[[1]])",
+              "printf(\"%d\", 1)", "\"\\q\"", "(qf = printf)", "(match ([1, 2]) { 0 => 1, q => 2 })"]
+# hosts: (name, program template with %s for the statement, input, output in front of the statement, in a function)
+DUP_HOSTS = [
+    ("begin", "BEGIN { print \"before\"\n %s\n print \"after\" }\nEND { print \"Z\" }", [], "before\n"),
+    ("end", "{ print \"P\", $ }\nEND { print \"E1\"\n %s\n print \"E2\" }", ["[1,2]"], "P 1\nP 2\nE1\n"),
+    ("pattern", "BEGIN { print \"B\" }\n{ print \"P1\", $\n %s\n print \"P2\" }\nEND { print \"Z\" }", ["[7,8]"], "B\nP1 7\n"),
+    ("function", "function fn(a) { print \"F1\"\n %s\n print \"F2\"\n return a }\nBEGIN { print \"B1\"\n fn(1)\n print \"B2\" }", [], "B1\nF1\n"),
+    ("loop", "BEGIN { for (k = 0; k < 2; k++) { print \"K\", k\n %s\n print \"K2\" } }\nEND { print \"Z\" }", [], "K 0\n"),
+    ("rule-pattern", "BEGIN { print \"B\" }\n[%s] { print \"hit\" }\nEND { print \"Z\" }", ["[7,8]"], "B\n"),
+]
+# statements around the literal: (name, template, output of the statement in front of the literal)
+DUP_USES = [("assign", "x = %s", ""), ("print", "print lab(\"U\"), %s", "U\n"), ("arg", "x = lab(%s)", ""), ("member", "x = %s.n", ""),
+            ("in-array", "x = [lab(\"U\"), %s]", "U\n"), ("in-object", "x = {v: %s, v: lab(\"never\")}", ""), ("for-in", "for (q in %s) { }", ""),
+            ("match-arm", "x = match (1) { 1 => (%s) }", "")]
+
+
+def dup_literals(rng, quick):
+    """yields (literal text, output of its elements up to the fault, kind, fault index or None)"""
+    out = []
+
+    def elems(n, fi, fault):
+        vals, exp = [], ""
+        for i in range(n):
+            if i == fi:
+                vals.append(fault)
+            else:
+                vals.append("lab(\"L%d\")" % i)
+                if fi is None or i < fi:
+                    exp += "L%d\n" % i
+        return vals, exp
+
+    for keys in DUP_KEYS:
+        n = len(keys)
+        for fi in list(range(n)) + [None]:
+            for fault in (rng.sample(DUP_FAULTS, 2 if quick else 6) if fi is not None else [None]):
+                vals, exp = elems(n, fi, fault)
+                sep = rng.choice([", ", ",\n ", ","])
+                lit = "{" + sep.join("%s: %s" % kv for kv in zip(keys, vals)) + rng.choice(["", "", ","]) + "}"
+                out.append((lit, exp, "object literal with keys " + " ".join(keys), fi))
+        # the repeated key inside a nested literal, itself the value of a repeated key
+        for fi in range(n):
+            fault = rng.choice(DUP_FAULTS)
+            vals, exp = elems(n, fi, fault)
+            inner = "{" + ", ".join("%s: %s" % kv for kv in zip(keys, vals)) + "}"
+            lit = rng.choice(["{o: lab(\"O\"), o: %s, \"o\": lab(\"never\")}", "{o: lab(\"O\"), \"o\": [%s, lab(\"never\")]}", "[lab(\"O\"), {o: %s, o: lab(\"never\")}]"]) % inner
+            out.append((lit, "O\n" + exp, "nested object literal with keys " + " ".join(keys), fi))
+    # the same element text repeated: array literals, argument lists
+    for n in (2, 3, 5):
+        for fi in range(n):
+            for fault in rng.sample(DUP_FAULTS, 2 if quick else 6):
+                same = rng.choice(["lab(\"S\")", "lab(1)", "lab(\"\")"])
+                exp = same[4:-1].strip("\"") + "\n"
+                vals = [same] * n
+                vals[fi] = fault
+                # the fault text itself repeated after the fault: the first one stops the run
+                if rng.random() < 0.3 and fi < n - 1:
+                    vals[fi + 1] = fault
+                out.append(("[" + ", ".join(vals) + "]", exp * fi, "array literal repeating %s" % same, fi))
+                out.append(("fn3(" + ", ".join(vals) + ")", exp * fi, "argument list repeating %s" % same, fi))
+                out.append(("[1].push(" + ", ".join(vals) + ")", exp * fi, "method argument list repeating %s" % same, fi))
+    return out
+
+
 def build(host, nest, stmt, fn2=True):
     body = nest[1] % stmt
     prog = PRE + ("function fn2(a, b, c) { return b }\n" if fn2 else "") + host[1] % body
@@ -438,6 +514,9 @@ class C11(Check):
             "(f) %d near-miss forms the grammar refuses (';' before else for every kind of if-body, else without if, doubled or misplaced "
             "';', stray ',' in argument/element/pattern/parameter lists, missing or mismatched parentheses in if/while/for/match/function "
             "headers), as statements in every host and nest and between rules, after rules and statements that print: syntax error, no output. "
+            "(g) object literals writing one key 2-3 times (identifier / string spellings, next to other keys, nested), array literals, argument and "
+            "method-argument lists repeating one element text, a fault at every element index, used in 8 statement shapes in 6 hosts: runtime error "
+            "and exactly the output of the elements in front of the fault. "
             % (len(NEAR_STMTS) + len(NEAR_FUNC_STMTS) + len(NEAR_LOOP_STMTS) + len(NEAR_TOP)) +
             "non-trivial = output before the fault is "
             "non-empty and a statement follows it")
@@ -599,6 +678,18 @@ class C11(Check):
                 add(prog, rng.choice(INPUTS), [], {"role": "syntax", "splice": what}, ("syntax-certain", "bytes"))
             else:
                 add(prog, rng.choice(INPUTS), [], {"role": "mutant", "splice": what}, ("syntax-maybe", "bytes"), False)
+        # ------------------------------------------------------------ (g) repeated keys / repeated elements
+        for lit, exp, what, fi in dup_literals(rng, quick):
+            hosts = DUP_HOSTS if not quick else rng.sample(DUP_HOSTS, 2)
+            for hname, tmpl, inputs, hout in hosts:
+                uname, utmpl, uout = ("pattern", "%s", "") if hname == "rule-pattern" else rng.choice(DUP_USES)
+                if "push(" in lit and uname in ("member", "for-in"):
+                    uname, utmpl, uout = DUP_USES[0]
+                prog = PRE + "function fn3(a, b, c, d, e) { return [a, b, c, d, e] }\n" + tmpl % (utmpl % lit)
+                meta = {"role": "repeated-elements", "fault": "element %s of %s" % (fi, what), "position": "%s in %s" % (uname, hname)}
+                if fi is not None:
+                    meta.update(expected_outcome="runtime", expected_stdout=hout + uout + exp)
+                add(prog, inputs, [], meta, ("repeated-elements",), fi is not None)
         # a mutant may loop up to the fuzzing limit while printing; such output-heavy runs are judged on the implementation alone
         mut = {c.id: c for c in cases if c.meta["role"] == "mutant"}
         pre, light = prescreen({i: c.line for i, c in mut.items()})
